@@ -12,6 +12,7 @@ CONSTANTS
   T = 2
   MaxTime = 0
   EarlyCancel = FALSE
+  MultiChunk = FALSE
   NoTimeouts = FALSE
   Mode = "mc"
   SymBreak = FALSE
@@ -21,8 +22,9 @@ CONSTANTS
   Dev_KeyMask = FALSE
   Dev_NoTypeCheck = FALSE
   Dev_NoPopOnTimeout = FALSE
+  Dev_DropChunksOnTimeout = FALSE
 INIT Init
 NEXT Next
 VIEW view
-INVARIANTS TypeOK InvOwnResponse InvNoShare InvTypeError InvFaultError InvBoxOwn InvSlotFreed InvBoundedWait InvGateOwned
+INVARIANTS TypeOK InvOwnResponse InvNoShare InvTypeError InvFaultError InvBoxOwn InvSlotFreed InvBoundedWait InvGateOwned InvNoChanErr
 CHECK_DEADLOCK FALSE
